@@ -532,35 +532,52 @@ def comment_callback(ctx, r):
         r.finding(inst + "|result-not-matched", where, "the match on the search result has no separate Some and None arms")
         return True
 
-    def returns(start, avoid):
+    from vlib import units
+
+    def bools_in(region):
         vals = set()
-        for x in b.reachable(start, avoid=avoid):
+        for x in region:
             for st in b.stmts(x):
-                if st[0] == "=" and st[1] == [0, []] and st[2][0] == "use" and st[2][1][0] == "c":
-                    vals.add(st[2][1][2])
+                if st[0] != "=":
+                    continue
+                ops = []
+                if st[2][0] == "use":
+                    ops = [st[2][1]]
+                elif st[2][0] == "agg":
+                    ops = list(st[2][2])
+                for o in ops:
+                    if o and o[0] == "c" and o[1] == "bool":
+                        vals.add(o[2])
         return vals
     some_region = b.reachable(some[0], avoid=(none[0],))
+    none_region = b.reachable(none[0], avoid=(some[0],))
+    join = some_region & none_region
+    some_only, none_only = some_region - join, none_region - join
+    # p + 2 on the Some side, where 2 is the constant or the length of the constant `*)`
+    sums = []
+    for x in sorted(some_only):
+        for st in b.stmts(x):
+            if st[0] == "=" and st[2][0] == "bin" and st[2][1].startswith("Add"):
+                ks = []
+                for o in (st[2][2], st[2][3]):
+                    if o[0] == "c" and len(o) > 3 and isinstance(o[3], dict) and "int" in o[3]:
+                        ks.append(int(o[3]["int"]))
+                    else:
+                        p_ = op_place(o)
+                        d_ = b.single_def(p_[0]) if p_ is not None and not p_[1] else None
+                        if d_ and d_[0] == "call" and (d_[2].callee or "").split("::")[-1] == "len" and d_[2].args and b.const_str(d_[2].args[0]) == needle:
+                            ks.append(len(needle))
+                if ks == [len("*)")]:
+                    sums.append(st[1][0])
     bumps = [c for c in b.calls() if c.bb in some_region and (c.callee or "").endswith("Lexer::bump")]
     ok_bump = False
-    for c in bumps:
-        p = op_place(c.args[1]) if len(c.args) > 1 else None
-        d = b.single_def(p[0]) if p is not None else None
-        # `position + 2` (checked add: the sum is field 0 of the pair)
-        src = None
-        if d and d[0] == "stmt" and d[3][0] == "use":
-            pp = op_place(d[3][1])
-            dd = b.single_def(pp[0]) if pp is not None else None
-            src = dd[3] if dd and dd[0] == "stmt" else None
-        elif d and d[0] == "stmt":
-            src = d[3]
-        if src and src[0] == "bin" and src[1].startswith("Add"):
-            consts = []
-            for o in (src[2], src[3]):
-                if o[0] == "c" and len(o) > 3 and isinstance(o[3], dict) and "int" in o[3]:
-                    consts.append(int(o[3]["int"]))
-            if consts == [len("*)")]:
+    if sums and bumps:
+        taint = units.forward(b, set(sums))
+        for c in bumps:
+            p = op_place(c.args[1]) if len(c.args) > 1 else None
+            if p is not None and p[0] in taint:
                 ok_bump = True
-    rs, rn = returns(some[0], (none[0],)), returns(none[0], (some[0],))
+    rs, rn = bools_in(some_only), bools_in(none_only)
     if not ok_bump:
         r.finding(inst + "|end-not-position-plus-2", where, "where `*)` is found at position p the lexer is not moved by p + 2: the token does not end with the first `*)`")
     elif rs != {"true"} or rn != {"false"}:
